@@ -135,4 +135,32 @@ def commit (d : DB) (persisted : Accounts) : DB :=
   { accts := fun a => if f.objDirty.contains a then f.accts a else persisted a,
     journal := [], snaps := [], nextId := 0, objDirty := [] }
 
+/-- `stateObject.empty()` (EIP-161): no nonce, no balance, no code -/
+def Acct.isEmpty (x : Acct) : Bool := x.nonce == 0 && x.balance == 0 && x.code.isEmpty
+
+/-- `Finalise(true)`: as `finalise`, and a journal-dirty account that is EMPTY is deleted too; an
+    account nothing has touched stays, empty or not -/
+def finaliseDel (d : DB) : DB :=
+  { d with accts := fun a =>
+             if journalDirty d a then
+               (match d.accts a with
+                | some x => if x.suicided || x.isEmpty then none else some x
+                | none => none)
+             else d.accts a,
+           objDirty := d.objDirty ++ ((List.range 16).filter (journalDirty d)),
+           journal := [], snaps := [] }
+
+/-- `Commit(true)` (what the application does for every block) followed by reopening at the root:
+    of the accounts marked dirty the suicided and the empty ones are deleted, the others written;
+    every account that was only READ since it was persisted reads as it was persisted -/
+def commitDel (d : DB) (persisted : Accounts) : DB :=
+  let dirty := fun a => d.objDirty.contains a || journalDirty d a
+  { accts := fun a =>
+      if dirty a then
+        (match d.accts a with
+         | some x => if x.suicided || x.isEmpty then none else some x
+         | none => none)
+      else persisted a,
+    journal := [], snaps := [], nextId := 0, objDirty := [] }
+
 end AnnVerif.StateJournal
